@@ -19,9 +19,9 @@ func init() { suites["trigger"] = suiteTrigger }
 // observable behaviour is deterministic; sequences run in parallel, results are emitted in order.
 func suiteTrigger(c *Ctx) {
 	r := c.Rng
-	nseq := 24
+	nseq := 26
 	if c.Thorough() {
-		nseq = 200
+		nseq = 202
 	}
 	type seqRes struct {
 		ops, outs []string
@@ -36,6 +36,9 @@ func suiteTrigger(c *Ctx) {
 		{"register 5 0", "settle", "stop", "await", "register 5 0", "await"},
 		{"register 5 2", "stop", "await", "register 6 0", "await"},
 		{"register 7 0", "await", "register 7 0", "await", "stop", "register 7 0", "await"},
+		// twice in one trigger's life: the timer has fired, nobody reads, and the next registration / stop has to cancel the pending trigger
+		{"register 5 0", "settle", "register 5 1", "settle", "register 5 2", "await", "await"},
+		{"register 6 0", "settle", "stop", "register 6 1", "settle", "stop", "register 6 2", "await", "await"},
 	}
 	for i := range seqs {
 		if i < len(fixed) {
